@@ -34,6 +34,10 @@ SLOTS = [
     ("string", 'r = { "', '" }'),
     ("string-esc", 'r = { "a\\', 'b" }'),
     ("string-tail", 'r = { "a', " }"),
+    ("u-esc-open", 'r = { "\\u{', '1}" }'),
+    ("u-esc-all", 'r = { "\\u{', '}" }'),
+    ("u-esc-close", 'r = { "\\u{41', '" }'),
+    ("x-esc", 'r = { "\\x', '" }'),
     ("cistring", "r = { ^", 'a" }'),
     ("char", "r = { '", "'..'z' }"),
     ("char-esc", "r = { '\\", "'..'z' }"),
@@ -252,7 +256,7 @@ replay_ext.HANDLERS["c10"] = _replay
 def texts_for(prop: str, tier: str, seed: int):
     """[(name, parts)]"""
     out = []
-    W2_QUICK = {"postfix", "infix", "range-op", "kw-pop-tail", "modifier", "rep-open", "string-esc", "peek-lo", "tag-eq"}
+    W2_QUICK = {"postfix", "infix", "range-op", "kw-pop-tail", "modifier", "rep-open", "string-esc", "peek-lo", "tag-eq", "u-esc-all", "x-esc", "u-esc-open"}
     for name, pre, suf in SLOTS:
         wmax = 2 if tier == "thorough" or name in W2_QUICK else 1
         for w in range(0, wmax + 1):
